@@ -134,10 +134,25 @@ class ArrivedTag:
         self.tag = tag
 
 
+_REDUCERS = {}
+
+
 def make_reducer(tag):
-    def red(obj):
-        return ArrivedTag, (tag,)
-    return red
+    # one function per tag: two requests for "the same reducers" must compare equal (get_reusable_executor's reuse decision)
+    if tag not in _REDUCERS:
+        def red(obj):
+            return ArrivedTag, (tag,)
+        _REDUCERS[tag] = red
+    return _REDUCERS[tag]
+
+
+def reducers(name):
+    """scenario value -> reducers argument: None -> None (default), "empty" -> {} (explicitly none), tag -> {Tagged: reducer}"""
+    if name is None:
+        return None
+    if name == "empty":
+        return {}
+    return {Tagged: make_reducer(name)}
 
 
 def seen_as(x):
